@@ -21,7 +21,9 @@ BINDINGS = [("ex", "http://a/"), ("", "urn:x"), ("é", "http://é/#"), ("n", "ht
             # a namespace without '/' or '#' (terms below live in it and in "urn:x")
             ("u", "urn:uuid:"),
             # labels that end in a colon (next to the same label without it / the empty label)
-            ("ex:", "http://c.example/"), (":", "http://d.example/")]
+            ("ex:", "http://c.example/"), (":", "http://d.example/"),
+            # label and namespace that are not in Unicode normal form C
+            ("e\u0301", "http://e\u0301.example/u\u0308\u212b#")]
 # terms inside separator-less namespaces; local parts begin with characters of the namespace
 URN_TRIPLE = (I("urn:uuid:d9b2"), I("urn:xurn:x"), I("urn:uuid:9d"))
 NBASE = 5
@@ -46,7 +48,7 @@ def binding_lists(maxlen: int) -> list:
             if y != x:
                 out.append((x, y, alias))
     out += [(7,), (8,), (7, 0), (0, 8), (7, 8), (9,), (1, 9), (10,), (0, 10), (11, 1),
-            (10, 11)]
+            (10, 11), (12,), (2, 12)]
     return out
 
 
